@@ -372,9 +372,16 @@ OPTIONS:
 			opt.OptionLength = 1
 		case TCPOptionKindMultipathTCP:
 			tcp.Multipath = true
+			if len(data) < 2 {
+				df.SetTruncated()
+				return fmt.Errorf("Invalid TCP option length. Length %d less than 2", len(data))
+			}
 			opt.OptionLength = data[1]
-			if opt.OptionLength <= 0 {
+			if opt.OptionLength < 3 {
 				return fmt.Errorf("MPTCP bad option length %d", opt.OptionLength)
+			} else if int(opt.OptionLength) > len(data) {
+				df.SetTruncated()
+				return fmt.Errorf("Invalid TCP option length %d exceeds remaining %d bytes", opt.OptionLength, len(data))
 			}
 			opt.OptionMultipath = MPTCPSubtype(data[2] >> 4)
 			switch opt.OptionMultipath {
@@ -430,6 +437,9 @@ OPTIONS:
 					}
 				}
 			case MPTCPSubtypeDSS:
+				if opt.OptionLength < 4 {
+					return fmt.Errorf("DSS bad option length %d", opt.OptionLength)
+				}
 				opt.OptionMPTCPDss = &Dss{
 					F: data[3]&0x10 != 0,
 					m: data[3]&0x08 != 0,
